@@ -229,3 +229,8 @@ def run(ck):
     rule_init_guards(ck)
     from .c13 import rule_validate_before_mutate
     rule_validate_before_mutate(ck, rid="C03.R6")
+    # the clamps only bound the rate if the conversions between A, kW, kWh and SoC-per-period are exact (units + truncation)
+    from ..units import check_units
+    from ..tables import UNITS
+    for q in ("Battery.charge", "Linear2StageBattery._charge", "Linear2StageBattery._charge_stepwise"):
+        check_units(ck, "C03.R7", ck.repo.fn(q), UNITS[q])
